@@ -121,12 +121,8 @@ Definition auto_decode (fuel : positive) (concatenated : bool) (inp : list N) : 
     if b =? 0xFD then
       (if concatenated then xz_decode_concat fuel false inp else xz_decode_single fuel false inp)
     else if b =? 0x4C then
-      let '(st, out, used) := lzip_decode fuel concatenated inp in
-      (* SEQ_FINISH: with CONCATENATED anything left after the end is an error *)
-      match st with
-      | Finished => if concatenated && (used <? lenN inp) then (DataError, out, used) else (st, out, used)
-      | _ => (st, out, used)
-      end
+      (* the .lz decoder handles LZMA_CONCATENATED itself (trailing data ends the decoding, it is not an error) *)
+      lzip_decode fuel concatenated inp
     else
       let '(st, out, used) := alone_decode fuel true inp in
       match st with
